@@ -237,7 +237,7 @@ def c13_plan(run, replay=None):
     if replay:
         replay_cases(run, replay, "cases.ndjson")
     else:
-        for sl in ["ids", "header", "stu", "events", "shift", "vids", "vpos", "vrest", "vtrip"] + ([] if q else ["stu2", "hdr2"]):
+        for sl in ["ids", "header", "stu", "events", "shift", "long", "vids", "vpos", "vrest", "vtrip"] + ([] if q else ["stu2", "hdr2"]):
             run.tlc("TripHashMC", "C13_%s.cfg" % sl, "design", workers=4, cases_out="cases.ndjson", timeout=1500)
     s = run.harness("hash", ["-in", "cases.ndjson", "-out", "obs.ndjson"], timeout=3000)
     run.load_inputs("obs.ndjson.inputs")
@@ -435,7 +435,7 @@ PLANS = {
     "C05": c05_plan,
     "C01": static_plan("C01", ["C01"], ["C01"], {"distinct_feeds": 200, "parses": 700}, large=True),
     "C03": static_plan("C03", ["C03stops", "C03refs", "C05cyc", "structure"], ["C03stops", "C03refs", "C05cyc", "structure", "C09pairs"], {"distinct_feeds": 3000}, large=True),
-    "C08": static_plan("C08", ["C08", "C08files"], ["C08", "C08files", "C01"], {"distinct_feeds": 1000, "relations_judged": 1400}, large=True),
+    "C08": static_plan("C08", ["C08", "C08files", "C08shape5", "C11b"], ["C08", "C08files", "C08shape5", "C11b", "C01"], {"distinct_feeds": 1000, "relations_judged": 1400}, large=True),
     "C09": static_plan("C09", ["C09", "structure"], ["C09", "structure", "C09pairs"], {"distinct_feeds": 120, "relations_judged": 120}),
     "C10": static_plan("C10", ["C10"], ["C10"], {"distinct_feeds": 300, "relations_judged": 400}),
     "C11": static_plan("C11", ["C11q", "C11b"], ["C11", "C11b"], {"distinct_feeds": 2000}),
